@@ -13,7 +13,14 @@ EXPLANATION = (
     "env.step/env.reset and every store site (replay-buffer add_sample, EpisodeDataset.add_sample, rollout appends, "
     "Monte-Carlo arrays, tabular/Dyna-Q update calls mapped through the callee signature) and every act site. Roles "
     "are tuple positions of the gymnasium protocol, never variable names. R3 is a path property: from an in-loop reset "
-    "definition of the observation no other definition may be reached without passing the step statement."
+    "definition of the observation no other definition may be reached without passing the step statement. A step result held in a "
+    "variable and projected by the next statement (`r = env.step(a); o, r_, d, t = r[:4]`) and store keywords given as a dict display "
+    "(`add_sample(**sample)`) are read as the unpacking / keyword call they abbreviate. R5 covers the read-out side of the episode "
+    "record (REINFORCE / actor-critic): the methods of EpisodeDataset are evaluated abstractly - every value is described by which "
+    "record positions of which steps (all episodes in order, one episode, a single element; whole or sliced) it is gathered from - and "
+    "each array returned for a protocol role (role = parameter of the transition-consuming function the result position is bound to) "
+    "must be exactly its own record position of every step; a role's array that contains another role's column taken across episode "
+    "boundaries is a violation, per-episode reconstructions and other unread forms are undecided."
 )
 TRUSTED = [
     "gymnasium protocol: env.step returns (next_obs, reward, terminated, truncated, info); env.reset returns (obs, info)",
@@ -35,6 +42,10 @@ RULES = {
     "R4-act-on-current": "the observation used to compute the action passed to env.step has the same reaching definitions as "
                          "the stored observation and never is the successor observation; after an in-loop reset the action is computed "
                          "again on every path to env.step (a value chosen before the reset is not carried over by copies)",
+    "R5-readout-role": "every array EpisodeDataset.prepare_policy_gradient_dataset hands out for a protocol role (observation / action / successor "
+                       "observation; role = the parameter of the transition-consuming function it is bound to) is gathered from that role's own "
+                       "position of the per-step records, for every step of every episode in storage order; an array of one role built from the "
+                       "column of another role across episode boundaries is a violation, forms that are not read are undecided",
 }
 
 # parameter / keyword names -> role.  Names of *API parameters* of the store callee, not of local variables.
@@ -133,6 +144,8 @@ def _store_sites(repo: Repo, L, ck):
             f = c.func
             if isinstance(f, ast.Attribute) and f.attr == "add_sample":
                 roles = {}
+                if any(kw.arg is None for kw in c.keywords) or any(isinstance(a, ast.Starred) for a in c.args):
+                    c = _splat_read(cfg, L, nid, c)       # `add_sample(**transition)` / `add_sample(*sample)`: the arguments the display provides
                 if c.keywords and not c.args:
                     for kw in c.keywords:
                         if kw.arg in ROLE_OF:
@@ -162,6 +175,54 @@ def _store_sites(repo: Repo, L, ck):
                     and L.qual.endswith("ppo.collect_trajectories"):
                 sites.append((nid, c, {list_role[f.value.id]: c.args[0]}, f"{f.value.id}.append(...) -> result field"))
     return sites
+
+
+def _splat_read(cfg, L, at, call):
+    """`f(**d)` / `f(*t)` where `d` is a dict display with constant keys / `t` a tuple display (given in the call or bound once to a variable that is not changed
+    afterwards, every name in it having the same reaching definitions at the display as at the call): the equivalent call with explicit
+    keywords.  Anything else is not read."""
+    kws = []
+    for kw in call.keywords:
+        if kw.arg is not None:
+            kws.append(kw)
+            continue
+        d, d_at = kw.value, at
+        if isinstance(d, ast.Name):
+            nm = d.id
+            ds = cfg.defs_of(at, nm)
+            n_defs = sum(1 for n in cfg.nodes for x in n.defs if x.name == nm)
+            if len(ds) != 1 or ds[0].kind != "assign" or not isinstance(ds[0].value, ast.Dict) or n_defs != 1 or any(nm in n.mutates for n in cfg.nodes):
+                raise AnalysisError(f"{L.qual}: `{short(call, 50)}`: the mapping `{nm}` is not a dict display bound once and left unchanged (unrecognised form)")
+            d, d_at = ds[0].value, ds[0].node
+        if not isinstance(d, ast.Dict) or not all(isinstance(k, ast.Constant) and isinstance(k.value, str) for k in d.keys):
+            raise AnalysisError(f"{L.qual}: `{short(call, 50)}`: keyword mapping is not a dict display with constant keys (unrecognised form)")
+        for v in d.values:
+            for x in _names_in(v):
+                if {y.key() for y in cfg.defs_of(d_at, x)} != {y.key() for y in cfg.defs_of(at, x)}:
+                    raise AnalysisError(f"{L.qual}: `{short(call, 50)}`: `{x}` is redefined between the dict display and the call (unrecognised form)")
+        kws += [ast.copy_location(ast.keyword(arg=k.value, value=v), v) for k, v in zip(d.keys, d.values)]
+    args = []
+    for a in call.args:
+        if not isinstance(a, ast.Starred):
+            args.append(a)
+            continue
+        d, d_at = a.value, at
+        if isinstance(d, ast.Name):
+            nm = d.id
+            ds = cfg.defs_of(at, nm)
+            n_defs = sum(1 for n in cfg.nodes for x in n.defs if x.name == nm)
+            if len(ds) != 1 or ds[0].kind != "assign" or not isinstance(ds[0].value, (ast.Tuple, ast.List)) or n_defs != 1 or any(nm in n.mutates for n in cfg.nodes):
+                raise AnalysisError(f"{L.qual}: `{short(call, 50)}`: the argument pack `{nm}` is not a tuple display bound once and left unchanged (unrecognised form)")
+            d, d_at = ds[0].value, ds[0].node
+        if not isinstance(d, (ast.Tuple, ast.List)) or any(isinstance(x, ast.Starred) for x in d.elts):
+            raise AnalysisError(f"{L.qual}: `{short(call, 50)}`: argument pack is not a tuple display (unrecognised form)")
+        for v in d.elts:
+            for x in _names_in(v):
+                if {y.key() for y in cfg.defs_of(d_at, x)} != {y.key() for y in cfg.defs_of(at, x)}:
+                    raise AnalysisError(f"{L.qual}: `{short(call, 50)}`: `{x}` is redefined between the tuple display and the call (unrecognised form)")
+        args += list(d.elts)
+    new = ast.copy_location(ast.Call(func=call.func, args=args, keywords=kws), call)
+    return new
 
 
 def _positional_add_sample(repo, L, at, receiver):
@@ -310,10 +371,9 @@ def _obs_var(L, stores, org):
     return best[0]
 
 
-def _episode_record(ck, repo):
-    """EpisodeDataset keeps one record per step: add_sample must put all four of its arguments (observation, action, successor
-    observation, reward) into the element it appends to the current episode.  A representation that keeps one of them elsewhere
-    (e.g. only the latest successor) has to reconstruct the per-step value later; that reconstruction is not read here - undecided."""
+def _add_sample_records(repo):
+    """The element `EpisodeDataset.add_sample` appends to the current episode, per path: (module, method, parameters without the receiver,
+    parameters that belong to the record, appended value, NF)."""
     from ..nf import NF, Poly
     from ..sympath import enumerate_paths, PathEval
     cq = "rl_blox.algorithm.reinforce.EpisodeDataset"
@@ -334,6 +394,7 @@ def _episode_record(ck, repo):
     else:
         raise AnalysisError(f"{cq}.add_sample: signature changed (anchor vanished)")
     env0 = {p: Poly.atom(p, {p}, {p}) for p in allp}
+    out = []
     for pth in enumerate_paths(cfg, cfg.entry, {cfg.exit}):
         if any(isinstance(cfg.nodes[n_].ast, (ast.Raise, ast.Assert)) and cfg.nodes[n_].kind == "stmt" and isinstance(cfg.nodes[n_].ast, ast.Raise) for n_, _l in pth):
             continue
@@ -341,7 +402,18 @@ def _episode_record(ck, repo):
         apps = [v for (_n, key, v) in pe.appended if key.startswith("self.episodes[")]
         if len(apps) != 1:
             raise AnalysisError(f"{cq}.add_sample: {len(apps)} appends to the current episode on a path (unrecognised form)")
-        rec = apps[0]
+        out.append((mi, fn, allp, params, apps[0], nf))
+    return out
+
+
+def _episode_record(ck, repo):
+    """EpisodeDataset keeps one record per step: add_sample must put all four of its arguments (observation, action, successor
+    observation, reward) into the element it appends to the current episode.  A representation that keeps one of them elsewhere
+    (e.g. only the latest successor) has to reconstruct the per-step value later; that reconstruction is read by R5 (`_readout`), which
+    reports a reconstruction it can refute - here the incomplete record itself is undecided."""
+    from ..nf import NF
+    cq = "rl_blox.algorithm.reinforce.EpisodeDataset"
+    for mi, fn, _allp, params, rec, _nf in _add_sample_records(repo):
         held = set()
         for el in (rec.elems or [rec]):
             held |= {a for a in el.atoms() if a in params}
@@ -357,6 +429,846 @@ def _episode_record(ck, repo):
         if missing:
             raise AnalysisError(f"{cq}.add_sample: the per-step record `{rec.canon()[:80]}` does not hold {missing}: the value is kept elsewhere and reconstructed later (not read by this analysis)")
         ck.ob("R1-store-role", cq + ".add_sample", "record-holds-all-roles", True, f"appends {rec.canon()[:80]}", "", loc(mi, fn))
+
+
+# ---- read-out of the episode record -----------------------------------------------------------------------
+# roles of API names on the read-out side (parameters of the consumers, fields of a returned record)
+READ_ROLE = dict(ROLE_OF, next_observations="N", states="O", next_states="N")
+_DATASET = "rl_blox.algorithm.reinforce.EpisodeDataset"
+_READOUT = "prepare_policy_gradient_dataset"
+_READOUT_LAYOUT = {0: "O", 1: "A", 2: "N"}        # documented order of the returned tuple (used for OK only, never for a violation)
+_OTHER = ("other",)
+_ARRAY_CTORS = {"array", "asarray", "asanyarray", "ascontiguousarray", "stack", "copy", "device_put"}
+_JOINERS = {"concatenate", "concat", "hstack", "vstack"}
+_ARRAY_LIBS = ("numpy.", "jax.numpy.", "jax.")
+_KEEPING_METHODS = {"copy", "astype", "tolist", "block_until_ready"}
+_META_ATTRS = {"dtype", "shape", "ndim", "size"}
+
+
+class _Unread(Exception):
+    pass
+
+
+def _unk(why):
+    return ("unk", str(why)[:90])
+
+
+def _alter(mode):
+    return {"A": "A~", "E": "E~", "J1": "J~"}.get(mode, mode)
+
+
+class _Gather:
+    """Abstract evaluation of the read-out methods of the episode dataset.  Every value is described by *which positions of which
+    per-step records* it is gathered from:
+
+      ("eps",)                       the list of episodes;  ("ep", eg, alt)  one episode (eg: id of the loop it is the generic element of,
+                                     None for a fixed one such as episodes[-1]; alt: sliced / reordered)
+      ("rec", eg, sg, alt)           one per-step record;   ("fld", k, eg, sg, alt)  position k of it
+      ("seq", comps, kind, depth)    a list / array; comps = {(k, mode, eg)}:  mode "A" = position k of every record of every episode in
+                                     storage order (complete, aligned); "A~" = the same column across all episodes, but sliced / filtered /
+                                     joined with something else; "E" / "E~" = the same within the generic episode of loop eg; "J~" / "J1" =
+                                     per-episode pieces (altered / one element) joined over the episodes; "F" = a fixed episode; "1" one
+                                     fixed element; "1e" one element of the generic episode; ("x", "x", None) = values that are no records
+      ("seq2", comps, kind, depth)   the list over all episodes of per-episode sequences
+      ("sel", comps, lid)            the generic element of an iteration over a seq;  ("tuple", [..]);  ("record", {field: value})
+      ("other",)                     not derived from the stored records;  ("unk", why)  not read (absorbing)."""
+
+    def __init__(self, repo, cq, arity, field_pos):
+        self.repo, self.cq, self.arity, self.field_pos = repo, cq, arity, field_pos
+        self.stack = []          # loop frames: dict(id, kind, eg, alt)
+        self.cond = 0            # depth of enclosing `if`s / comprehension conditions inside the innermost method activation's loops
+        self.ids = 0
+        self.depth = 0           # method activation depth
+
+    # -- helpers ------------------------------------------------------------------------------------
+    def _new_id(self):
+        self.ids += 1
+        return self.ids
+
+    @staticmethod
+    def derived(v):
+        """does the value come (in part) from the stored records?"""
+        if v[0] == "tuple":
+            return any(_Gather.derived(x) for x in v[1])
+        if v[0] == "record":
+            return any(_Gather.derived(x) for x in v[1].values())
+        return v != _OTHER
+
+    def lib(self, mi, f):
+        """last name of a numpy / jax.numpy function, else None"""
+        try:
+            q = self.repo.resolve_expr(mi, f) if isinstance(f, (ast.Name, ast.Attribute)) else None
+        except Exception:
+            q = None
+        if q and q.startswith(_ARRAY_LIBS):
+            return q.rsplit(".", 1)[1]
+        return None
+
+    def field(self, rec, k):
+        if isinstance(k, str):
+            k = self.field_pos.get(k)
+        if not isinstance(k, int):
+            return _unk("field of a record")
+        if self.arity is not None:
+            if not -self.arity <= k < self.arity:
+                return _unk("record position out of range")
+            k %= self.arity
+        elif k < 0:
+            return _unk("negative record position")
+        if rec[0] == "rec":
+            return ("fld", k, rec[1], rec[2], rec[3])
+        # generic element of a sequence of whole records
+        comps = frozenset((k, m, eg) if kk == "*" else None for kk, m, eg in rec[1])
+        if None in comps:
+            return _unk("element of a gathered sequence")
+        return ("sel", comps, rec[2])
+
+    def single(self, v):
+        """comps of the one-element sequence [v]"""
+        if v[0] == "fld":
+            k, eg, sg, alt = v[1:]
+            if sg is not None:
+                return None
+            return frozenset({(k, "1e" if eg is not None else "1", eg)})
+        if v[0] == "rec":
+            if v[2] is not None:
+                return None
+            return frozenset({("*", "1e" if v[1] is not None else "1", v[1])})
+        if v == _OTHER:
+            return frozenset({("x", "x", None)})
+        return None
+
+    def appended(self, v, crossed, cond):
+        """comps contributed by `acc.append(v)` executed inside the loops ``crossed`` (those entered after acc was created)"""
+        kinds = [f["kind"] for f in crossed]
+        if v == _OTHER or v[0] == "iv":
+            return frozenset({("x", "x", None)})
+        if "other" in kinds:
+            return None
+        out = None
+        if v[0] in ("fld", "rec"):
+            k = v[1] if v[0] == "fld" else "*"
+            eg, sg, alt = v[-3:]
+            alt = alt or cond or any(f["alt"] for f in crossed)
+            if kinds == ["eps", "ep"] and eg == crossed[0]["id"] and sg == crossed[1]["id"] and crossed[1]["eg"] == eg:
+                out = (k, "A", None)
+            elif kinds == ["ep"] and sg == crossed[0]["id"] and crossed[0]["eg"] == eg:
+                out = (k, "E", eg) if eg is not None else (k, "F", None)
+            elif kinds == ["eps"] and eg == crossed[0]["id"] and sg is None:
+                out = (k, "J1", None)
+            elif not kinds and sg is None:
+                out = (k, "1e" if eg is not None else "1", eg)
+            if out is not None and alt:
+                out = (out[0], _alter(out[1]), out[2])
+        elif v[0] == "sel":
+            if kinds == ["seq"] and crossed[0]["id"] == v[2]:
+                return frozenset((k, _alter(m) if cond or crossed[0]["alt"] else m, eg) for k, m, eg in v[1])
+        return None if out is None else frozenset({out})
+
+    def extended(self, comps, crossed, cond):
+        """comps contributed by `acc.extend(<seq with comps>)` inside the loops ``crossed``"""
+        kinds = [f["kind"] for f in crossed]
+        if not kinds:
+            return comps
+        if kinds != ["eps"]:
+            return None
+        lid, alt = crossed[0]["id"], cond or crossed[0]["alt"]
+        out = set()
+        for k, m, eg in comps:
+            if m == "x":
+                out.add((k, m, None))
+            elif eg != lid:
+                return None
+            elif m == "E":
+                out.add((k, "A~" if alt else "A", None))
+            elif m == "E~":
+                out.add((k, "J~", None))
+            elif m == "1e":
+                out.add((k, "J~" if alt else "J1", None))
+            else:
+                return None
+        return frozenset(out)
+
+    def concat(self, a, b):
+        """comps of the concatenation of two sequences"""
+        if not a or not b:
+            return a | b
+        return frozenset((k, _alter(m), eg) for k, m, eg in a | b)
+
+    def fresh(self, kind="list"):
+        return ("seq", frozenset(), kind, len(self.stack))
+
+    def join(self, a, b):
+        if a == b:
+            return a
+        if a[0] == b[0] == "seq" and a[2:] == b[2:]:
+            return ("seq", frozenset((k, _alter(m), eg) for k, m, eg in a[1] | b[1]), a[2], a[3])
+        if a[0] == b[0] == "tuple" and len(a[1]) == len(b[1]):
+            return ("tuple", [self.join(x, y) for x, y in zip(a[1], b[1])])
+        if not self.derived(a) and not self.derived(b):
+            return _OTHER
+        return _unk("value differs between branches")
+
+    # -- expressions ----------------------------------------------------------------------------------
+    def ev(self, e, env, mi):
+        m = getattr(self, "_e_" + type(e).__name__, None)
+        if m is not None:
+            return m(e, env, mi)
+        kids = [self.ev(c, env, mi) for c in ast.iter_child_nodes(e) if isinstance(c, ast.expr)]
+        return _unk(f"`{short(e, 40)}`") if any(self.derived(k) for k in kids) else _OTHER
+
+    def _e_Constant(self, e, env, mi):
+        return _OTHER
+
+    def _e_Name(self, e, env, mi):
+        return env.get(e.id, _OTHER)
+
+    def _e_NamedExpr(self, e, env, mi):
+        v = self.ev(e.value, env, mi)
+        self.bind(e.target, v, env)
+        return v
+
+    def _e_Attribute(self, e, env, mi):
+        if isinstance(e.value, ast.Name) and e.value.id == env.get("%self"):
+            return ("eps",) if e.attr == "episodes" else _OTHER
+        v = self.ev(e.value, env, mi)
+        if not self.derived(v) or e.attr in _META_ATTRS:
+            return v if v[0] == "unk" and e.attr not in _META_ATTRS else _OTHER
+        if v[0] == "rec" or (v[0] == "sel" and e.attr in self.field_pos):
+            return self.field(v, e.attr)
+        if v[0] == "record" and e.attr in v[1]:
+            return v[1][e.attr]
+        return v if v[0] == "unk" else _unk(f"`{short(e, 40)}`")
+
+    @staticmethod
+    def _slice_kind(s):
+        """'id' for [:], [0:], [None]; 'alt' for another slice; 'new' for a new axis; ('int', k) for a constant; None otherwise"""
+        if isinstance(s, ast.Slice):
+            lo_ok = s.lower is None or (isinstance(s.lower, ast.Constant) and s.lower.value in (0, None))
+            up_ok = s.upper is None or (isinstance(s.upper, ast.Constant) and s.upper.value is None)
+            st_ok = s.step is None or (isinstance(s.step, ast.Constant) and s.step.value in (1, None))
+            return "id" if lo_ok and up_ok and st_ok else "alt"
+        if isinstance(s, ast.Constant) and s.value is None:
+            return "new"
+        if dotted(s).rsplit(".", 1)[-1] == "newaxis":
+            return "new"
+        if isinstance(s, ast.Constant) and isinstance(s.value, int) and not isinstance(s.value, bool):
+            return ("int", s.value)
+        if isinstance(s, ast.UnaryOp) and isinstance(s.op, ast.USub) and isinstance(s.operand, ast.Constant) and isinstance(s.operand.value, int):
+            return ("int", -s.operand.value)
+        if isinstance(s, ast.Constant) and isinstance(s.value, str):
+            return ("str", s.value)
+        return None
+
+    def _e_Subscript(self, e, env, mi):
+        v = self.ev(e.value, env, mi)
+        s = e.slice
+        if isinstance(s, ast.Tuple) and s.elts and all(isinstance(x, ast.Slice) and self._slice_kind(x) == "id" or isinstance(x, ast.Constant) and x.value is Ellipsis for x in s.elts[1:]):
+            s = s.elts[0]        # `a[1:, :]`, `a[1:, ...]`: the first axis decides
+        sk = self._slice_kind(s)
+        iv = self.ev(s, env, mi) if isinstance(s, ast.Name) else None
+        if not self.derived(v):
+            return _OTHER if iv is None or not self.derived(iv) or iv[0] == "iv" else _unk("index derived from records")
+        if v[0] == "unk":
+            return v
+        if v[0] == "eps":
+            if isinstance(sk, tuple) and sk[0] == "int":
+                return ("ep", None, False)
+            if iv is not None and iv[0] == "iv" and iv[1] == "eps":
+                return ("ep", iv[2], iv[3])
+        elif v[0] == "ep":
+            if isinstance(sk, tuple) and sk[0] == "int":
+                return ("rec", v[1], None, v[2])
+            if iv is not None and iv[0] == "iv" and iv[1] == "ep" and iv[4] == v[1]:
+                return ("rec", v[1], iv[2], v[2] or iv[3])
+            if sk == "id":
+                return v
+            if sk == "alt":
+                return ("ep", v[1], True)
+        elif v[0] == "rec" or (v[0] == "sel" and any(k == "*" for k, _m, _g in v[1])):
+            if isinstance(sk, tuple):
+                return self.field(v, sk[1])
+        elif v[0] == "fld":
+            if sk == "new":
+                c = self.single(v)
+                if c is not None:
+                    return ("seq", c, "array", len(self.stack))
+        elif v[0] == "seq":
+            if sk in ("id", "new"):
+                return v
+            if sk == "alt":
+                return ("seq", frozenset((k, _alter(m), eg) for k, m, eg in v[1]), v[2], v[3])
+            if isinstance(sk, tuple) and sk[0] == "int" and len(v[1]) == 1:
+                (k, m, eg), = v[1]
+                if k == "*":
+                    return ("rec", None, None, False)
+                if isinstance(k, int):
+                    return ("fld", k, None, None, False)
+        return _unk(f"`{short(e, 40)}`")
+
+    def _elements(self, elts, env, mi, kind):
+        """value of a list / tuple display read as a sequence"""
+        comps = frozenset()
+        for x in elts:
+            if isinstance(x, ast.Starred):
+                w = self.ev(x.value, env, mi)
+                c = w[1] if w[0] == "seq" else None
+            else:
+                w = self.ev(x, env, mi)
+                c = self.single(w)
+            if w[0] == "unk":
+                return w
+            if c is None:
+                return _unk(f"element `{short(x, 30)}` of a sequence display")
+            comps = self.concat(comps, c) if comps - {("x", "x", None)} and c - {("x", "x", None)} else comps | c
+        return ("seq", comps, kind, len(self.stack))
+
+    def _e_List(self, e, env, mi):
+        return self._elements(e.elts, env, mi, "list")
+
+    def _e_Tuple(self, e, env, mi):
+        if any(isinstance(x, ast.Starred) for x in e.elts):
+            return self._elements(e.elts, env, mi, "list")
+        return ("tuple", [self.ev(x, env, mi) for x in e.elts])
+
+    def _comp(self, e, env, mi):
+        env = dict(env)
+        acc = self.fresh()
+        n_frames, cond0 = 0, self.cond
+        try:
+            for g in e.generators:
+                if g.is_async:
+                    return _unk("async comprehension")
+                self.enter_loop(g.target, g.iter, env, mi)
+                n_frames += 1
+                for c in g.ifs:
+                    self.ev(c, env, mi)
+                    self.cond += 1
+            v = self.ev(e.elt, env, mi)
+            return self.add(acc, "append", v)
+        finally:
+            del self.stack[len(self.stack) - n_frames:]
+            self.cond = cond0
+
+    _e_ListComp = _comp
+    _e_GeneratorExp = _comp
+
+    def _e_IfExp(self, e, env, mi):
+        self.ev(e.test, env, mi)
+        return self.join(self.ev(e.body, env, mi), self.ev(e.orelse, env, mi))
+
+    def _e_BinOp(self, e, env, mi):
+        a, b = self.ev(e.left, env, mi), self.ev(e.right, env, mi)
+        for v in (a, b):
+            if v[0] == "unk":
+                return v
+        if not self.derived(a) and not self.derived(b):
+            return _OTHER
+        if isinstance(e.op, ast.Add) and a[0] == b[0] == "seq" and a[2] == b[2] == "list":
+            return ("seq", self.concat(a[1], b[1]), "list", min(a[3], b[3]))
+        if isinstance(e.op, ast.Add) and "seq" in (a[0], b[0]) and (isinstance(e.left, ast.List) or isinstance(e.right, ast.List)):
+            return _unk("list + array")
+        # element-wise arithmetic with a value that is no record keeps the provenance (the obligation is about where the elements come from)
+        if not self.derived(b) and a[0] in ("seq", "fld") and (a[0] == "fld" or a[2] == "array"):
+            return a
+        if not self.derived(a) and b[0] in ("seq", "fld") and (b[0] == "fld" or b[2] == "array"):
+            return b
+        return _unk(f"`{short(e, 40)}`")
+
+    def _e_Compare(self, e, env, mi):
+        return _OTHER
+
+    def _e_BoolOp(self, e, env, mi):
+        return _OTHER
+
+    def _e_Call(self, e, env, mi):
+        f = e.func
+        if any(kw.arg is None for kw in e.keywords):
+            return _unk("**kwargs call")
+        # a method of the dataset itself
+        if isinstance(f, ast.Attribute) and isinstance(f.value, ast.Name) and f.value.id == env.get("%self"):
+            m = self.repo.method(self.cq, f.attr)
+            if m is None:
+                return _unk(f"self.{f.attr} is not a method")
+            return self.call_method(m, e, env, mi)
+        lib = self.lib(mi, f)
+        builtin = f.id if isinstance(f, ast.Name) and f.id not in env and f.id in ("list", "tuple", "sum", "len", "range", "isinstance", "int", "float", "zip") else None
+        if builtin == "len":
+            return _OTHER
+        args = list(e.args)
+        if builtin == "zip" and len(args) == 1 and isinstance(args[0], ast.Starred) and not e.keywords and self.arity is not None:
+            # zip(*records): one column per record position
+            v = self.ev(args[0].value, env, mi)
+            if v[0] == "ep":
+                mode = ("E~" if v[2] else "E") if v[1] is not None else "F"
+                return ("tuple", [("seq", frozenset({(k, mode, v[1])}), "list", len(self.stack)) for k in range(self.arity)])
+            if v[0] == "seq" and v[1] and all(k == "*" for k, _m, _g in v[1]):
+                return ("tuple", [("seq", frozenset((k, m_, g_) for _k, m_, g_ in v[1]), "list", v[3]) for k in range(self.arity)])
+            return v if v[0] == "unk" else _unk(f"`{short(e, 40)}`")
+        if (lib in _ARRAY_CTORS or builtin in ("list", "tuple")) and args and not isinstance(args[0], ast.Starred):
+            rest = [self.ev(a, env, mi) for a in args[1:] if not isinstance(a, ast.Starred)] + [self.ev(kw.value, env, mi) for kw in e.keywords]
+            if any(self.derived(r) for r in rest):
+                return _unk(f"`{short(e, 40)}`")
+            a0 = args[0]
+            v = self._elements(a0.elts, env, mi, "list") if isinstance(a0, (ast.Tuple, ast.List)) else self.ev(a0, env, mi)
+            kind = "list" if builtin else "array"
+            if v[0] == "seq":
+                return ("seq", v[1], kind, v[3])
+            if v[0] in ("fld", "unk") or not self.derived(v):
+                return v
+            return _unk(f"`{short(e, 40)}`")
+        if lib in _JOINERS and args and not isinstance(args[0], ast.Starred):
+            a0 = args[0]
+            if isinstance(a0, (ast.Tuple, ast.List)) and not any(isinstance(x, ast.Starred) for x in a0.elts):
+                parts = [self.ev(x, env, mi) for x in a0.elts]
+            else:
+                v = self.ev(a0, env, mi)
+                parts = v[1] if v[0] == "tuple" else None
+                if parts is None:
+                    if v[0] == "seq2":
+                        c = self.extended(v[1], [{"id": v[4], "kind": "eps", "alt": False}], False)
+                        return ("seq", c, "array", v[3]) if c is not None else _unk("joined per-episode pieces")
+                    if v[0] == "seq":
+                        return ("seq", v[1], "array", v[3])
+                    return v if v[0] == "unk" or not self.derived(v) else _unk(f"`{short(e, 40)}`")
+            comps = frozenset()
+            for p in parts:
+                if p[0] == "unk":
+                    return p
+                c = p[1] if p[0] == "seq" else self.single(p)
+                if c is None:
+                    return _unk(f"part of `{short(e, 40)}`")
+                comps = self.concat(comps, c)
+            return ("seq", comps, "array", len(self.stack))
+        if builtin == "sum" and len(args) == 2 and isinstance(args[1], ast.List) and not args[1].elts:
+            v = self.ev(args[0], env, mi)
+            if v[0] == "seq2":
+                c = self.extended(v[1], [{"id": v[4], "kind": "eps", "alt": False}], False)
+                return ("seq", c, "list", v[3]) if c is not None else _unk("joined per-episode pieces")
+        if isinstance(f, ast.Attribute) and dotted(f).endswith("chain.from_iterable") and len(args) == 1:
+            v = self.ev(args[0], env, mi)
+            if v[0] == "seq2":
+                c = self.extended(v[1], [{"id": v[4], "kind": "eps", "alt": False}], False)
+                return ("seq", c, "list", v[3]) if c is not None else _unk("joined per-episode pieces")
+        if isinstance(f, ast.Attribute) and f.attr in _KEEPING_METHODS and not isinstance(f.value, ast.Name) or \
+                (isinstance(f, ast.Attribute) and f.attr in _KEEPING_METHODS and isinstance(f.value, ast.Name) and self.derived(env.get(f.value.id, _OTHER))):
+            v = self.ev(f.value, env, mi)
+            if v[0] in ("seq", "fld", "unk"):
+                return v
+        # construction of a plain record
+        fields = None
+        if isinstance(f, ast.Call) and dotted(f.func).rsplit(".", 1)[-1] == "namedtuple" and len(f.args) == 2 and isinstance(f.args[1], (ast.List, ast.Tuple)) \
+                and all(isinstance(x, ast.Constant) and isinstance(x.value, str) for x in f.args[1].elts):
+            fields = [x.value for x in f.args[1].elts]
+        elif isinstance(f, (ast.Name, ast.Attribute)):
+            try:
+                q = self.repo.resolve_expr(mi, f)
+                if q and self.repo.has(q):
+                    from ..nf import NF
+                    fields = NF._record_fields(self.repo.lookup(q)[1])
+            except Exception:
+                fields = None
+        if fields and not any(isinstance(a, ast.Starred) for a in args) and len(args) <= len(fields):
+            rec = dict(zip(fields, [self.ev(a, env, mi) for a in args]))
+            rec.update({kw.arg: self.ev(kw.value, env, mi) for kw in e.keywords if kw.arg in fields})
+            return ("record", rec)
+        vals = [self.ev(a.value if isinstance(a, ast.Starred) else a, env, mi) for a in args] + [self.ev(kw.value, env, mi) for kw in e.keywords]
+        if isinstance(f, ast.Attribute):
+            vals.append(self.ev(f.value, env, mi))
+        elif isinstance(f, ast.Name):
+            vals.append(env.get(f.id, _OTHER))
+        return _unk(f"`{short(e, 40)}`") if any(self.derived(v) for v in vals) else _OTHER
+
+    def call_method(self, m, call, env, mi):
+        owner, fn = m
+        if self.depth >= 6:
+            return _unk("method calls nested too deeply")
+        cmi = self.repo.cls(owner)._module
+        params = positional_params(fn)
+        if not params or fn.args.vararg or fn.args.kwarg:
+            return _unk(f"signature of {fn.name}")
+        if any(ast.unparse(d).split("(")[0].split(".")[-1] in ("staticmethod", "classmethod", "property") for d in fn.decorator_list):
+            return _unk(f"decorated method {fn.name}")
+        new = {"%self": params[0]}
+        if call is not None:
+            for p, a in bind_call(fn, call, skip_self=True).items():
+                if isinstance(a, ast.AST):
+                    new[p] = self.ev(a, env, mi)
+        self.depth += 1
+        saved_cond = self.cond
+        rets = []
+        try:
+            self.block(fn.body, new, cmi, rets)
+        except _Unread as ex:
+            return _unk(str(ex))
+        finally:
+            self.depth -= 1
+            self.cond = saved_cond
+        if not rets:
+            return _OTHER
+        out = rets[0]
+        for r in rets[1:]:
+            out = self.join(out, r)
+        return out
+
+    # -- statements -----------------------------------------------------------------------------------
+    def bind(self, tgt, v, env):
+        if isinstance(tgt, ast.Name):
+            env[tgt.id] = v
+            return
+        if isinstance(tgt, (ast.Tuple, ast.List)):
+            elts = tgt.elts
+            if any(isinstance(x, ast.Starred) for x in elts):
+                vals = None
+            elif v[0] == "tuple" and len(v[1]) == len(elts):
+                vals = v[1]
+            elif v[0] == "rec" and (self.arity is None or self.arity == len(elts)):
+                vals = [self.field(v, i) for i in range(len(elts))]
+            elif v[0] == "sel" and all(k == "*" for k, _m, _g in v[1]) and (self.arity is None or self.arity == len(elts)):
+                vals = [self.field(v, i) for i in range(len(elts))]
+            else:
+                vals = None
+            for i, x in enumerate(elts):
+                x = x.value if isinstance(x, ast.Starred) else x
+                self.bind(x, vals[i] if vals is not None else (_unk("unpacking") if self.derived(v) else _OTHER), env)
+            return
+        # subscript / attribute store: the object is changed in place
+        b = tgt
+        while isinstance(b, (ast.Subscript, ast.Attribute)):
+            b = b.value
+        if isinstance(b, ast.Name) and b.id in env and b.id != env.get("%self") and self.derived(env[b.id]):
+            env[b.id] = _unk(f"`{b.id}` is updated in place")
+
+    def enter_loop(self, tgt, it, env, mi):
+        """push the frame of `for tgt in it` and bind the target to the generic element"""
+        lid = self._new_id()
+        src, idx_tgt, alt, as_index = it, None, False, False
+        while True:
+            if isinstance(src, ast.Call) and isinstance(src.func, ast.Name) and src.func.id not in env and len(src.args) == 1 and not src.keywords \
+                    and not isinstance(src.args[0], ast.Starred):
+                fname = src.func.id
+                if fname == "enumerate" and idx_tgt is None and isinstance(tgt, (ast.Tuple, ast.List)) and len(tgt.elts) == 2:
+                    idx_tgt, tgt, src = tgt.elts[0], tgt.elts[1], src.args[0]
+                    continue
+                if fname in ("list", "tuple", "iter"):
+                    src = src.args[0]
+                    continue
+                if fname in ("reversed", "sorted"):
+                    alt, src = True, src.args[0]
+                    continue
+                if fname == "range" and isinstance(src.args[0], ast.Call) and isinstance(src.args[0].func, ast.Name) and src.args[0].func.id == "len" \
+                        and len(src.args[0].args) == 1 and not as_index and idx_tgt is None:
+                    as_index, src = True, src.args[0].args[0]
+                    continue
+            break
+        v = self.ev(src, env, mi)
+        if idx_tgt is not None:
+            self.bind(idx_tgt, _OTHER, env)
+        frame = {"id": lid, "kind": "other", "eg": None, "alt": alt, "cond0": self.cond}
+        elem = _unk(f"iteration over `{short(it, 30)}`") if self.derived(v) else _OTHER
+        if v[0] == "eps":
+            frame["kind"] = "eps"
+            elem = ("iv", "eps", lid, alt, None) if as_index else ("ep", lid, alt)
+        elif v[0] == "ep":
+            frame.update(kind="ep", eg=v[1], alt=alt or v[2])
+            elem = ("iv", "ep", lid, alt or v[2], v[1]) if as_index else ("rec", v[1], lid, alt or v[2])
+        elif v[0] == "seq" and not as_index:
+            frame["kind"] = "seq"
+            elem = ("sel", v[1], lid)
+        elif as_index and self.derived(v):
+            elem = _unk("index over a gathered sequence")
+        elif as_index:
+            elem = _OTHER
+        self.stack.append(frame)
+        self.bind(tgt, elem, env)
+
+    def add(self, acc, how, v):
+        """`acc.append(v)` / `acc.extend(v)` in the current loop context"""
+        if acc[0] not in ("seq", "seq2") or acc[2] != "list":
+            return _unk("append to something that is not a list")
+        if v[0] == "unk":
+            return v
+        crossed = self.stack[acc[3]:] if len(self.stack) >= acc[3] else None
+        if crossed is None:
+            return _unk("list created inside a loop that has ended")
+        cond = bool(crossed) and self.cond > crossed[0]["cond0"]
+        if how == "append" and v[0] == "seq":
+            # a list of per-episode sequences
+            if [f["kind"] for f in crossed] == ["eps"] and not cond and not crossed[0]["alt"] and not acc[1] and all(eg in (crossed[0]["id"], None) for _k, _m, eg in v[1]):
+                return ("seq2", v[1], "list", acc[3], crossed[0]["id"])
+            return _unk("nested sequences")
+        if acc[0] == "seq2":
+            return _unk("nested sequences")
+        if how == "append":
+            c = self.appended(v, crossed, cond)
+        else:
+            c = self.extended(v[1], crossed, cond) if v[0] == "seq" else (frozenset({("x", "x", None)}) if v == _OTHER else None)
+        if c is None:
+            return _unk(f"{how} of a value gathered in a way that is not read")
+        merged = acc[1] | c
+        if not crossed and acc[1] - {("x", "x", None)} and c - {("x", "x", None)}:
+            merged = self.concat(acc[1], c)
+        return ("seq", merged, "list", acc[3])
+
+    def block(self, stmts, env, mi, rets) -> bool:
+        """execute; True when the block always leaves the method (return / raise)"""
+        for s in stmts:
+            if self.stmt(s, env, mi, rets):
+                return True
+        return False
+
+    def stmt(self, s, env, mi, rets) -> bool:
+        if isinstance(s, ast.Expr):
+            c = s.value
+            if isinstance(c, ast.Call) and isinstance(c.func, ast.Attribute) and isinstance(c.func.value, ast.Name) and c.func.value.id in env \
+                    and c.func.value.id != env.get("%self") and env[c.func.value.id][0] in ("seq", "seq2", "unk"):
+                nm = c.func.value.id
+                if c.func.attr in ("append", "extend") and len(c.args) == 1 and not c.keywords and not isinstance(c.args[0], ast.Starred):
+                    env[nm] = self.add(env[nm], c.func.attr, self.ev(c.args[0], env, mi)) if env[nm][0] != "unk" else env[nm]
+                else:
+                    env[nm] = _unk(f"`{short(c, 40)}`")
+                return False
+            if not isinstance(c, ast.Constant):
+                self.ev(c, env, mi)
+                for x in ast.walk(c):       # a sequence handed to a call that is not read may be changed by it
+                    if isinstance(x, ast.Call) and not (isinstance(x.func, ast.Name) and x.func.id in ("print", "len")):
+                        for a in x.args:
+                            if isinstance(a, ast.Name) and a.id in env and env[a.id][0] in ("seq", "seq2"):
+                                env[a.id] = _unk(f"`{a.id}` is passed to `{short(x.func, 30)}`")
+            return False
+        if isinstance(s, (ast.Assign, ast.AnnAssign)):
+            if s.value is None:
+                return False
+            tgts = s.targets if isinstance(s, ast.Assign) else [s.target]
+            if len(tgts) == 1 and isinstance(tgts[0], ast.Name) and isinstance(s.value, ast.BinOp) and isinstance(s.value.op, ast.Add) and isinstance(s.value.left, ast.Name) \
+                    and s.value.left.id == tgts[0].id and env.get(tgts[0].id, _OTHER)[0] in ("seq", "seq2") and env[tgts[0].id][2] == "list":
+                env[tgts[0].id] = self.add(env[tgts[0].id], "extend", self.ev(s.value.right, env, mi))      # acc = acc + [...]
+                return False
+            v = self.ev(s.value, env, mi)
+            for t in tgts:
+                self.bind(t, v, env)
+            return False
+        if isinstance(s, ast.AugAssign):
+            if isinstance(s.target, ast.Name):
+                cur = env.get(s.target.id, _OTHER)
+                if isinstance(s.op, ast.Add) and cur[0] in ("seq", "seq2") and cur[2] == "list":
+                    env[s.target.id] = self.add(cur, "extend", self.ev(s.value, env, mi))
+                else:
+                    env[s.target.id] = self._e_BinOp(ast.BinOp(left=s.target, op=s.op, right=s.value), env, mi)
+            else:
+                self.ev(s.value, env, mi)
+                self.bind(s.target, _OTHER, env)
+            return False
+        if isinstance(s, ast.For):
+            before = dict(env)
+            n0, c0 = len(self.stack), self.cond
+            self.enter_loop(s.target, s.iter, env, mi)
+            try:
+                if any(isinstance(x, (ast.Break, ast.Continue, ast.Return)) for b in s.body for x in ast.walk(b)):
+                    raise _Unread("a loop is left early (break / continue / return)")
+                self.block(s.body, env, mi, rets)
+            finally:
+                del self.stack[n0:]
+                self.cond = c0
+            # plain (re)bindings made in the body hold the value of the last iteration / the value before the loop
+            for nm, v in list(env.items()):
+                if nm.startswith("%"):
+                    continue
+                old = before.get(nm, _OTHER)
+                if v == old or v[0] == "unk":
+                    continue
+                if v[0] in ("seq", "seq2") and old[0] in ("seq", "seq2") and v[3] == old[3] and v[3] <= n0:
+                    continue        # an accumulator created before the loop
+                env[nm] = _unk(f"`{nm}` is rebound in a loop") if self.derived(v) or self.derived(old) else _OTHER
+            return self.block(s.orelse, env, mi, rets) if s.orelse else False
+        if isinstance(s, ast.If):
+            self.ev(s.test, env, mi)
+            e1, e2 = dict(env), dict(env)
+            self.cond += 1
+            try:
+                t1 = self.block(s.body, e1, mi, rets)
+                t2 = self.block(s.orelse, e2, mi, rets)
+            finally:
+                self.cond -= 1
+            if t1 and t2:
+                return True
+            if t1 or t2:
+                env.clear()
+                env.update(e2 if t1 else e1)
+                return False
+            for nm in set(e1) | set(e2):
+                env[nm] = self.join(e1.get(nm, _OTHER), e2.get(nm, _OTHER))
+            return False
+        if isinstance(s, ast.Return):
+            rets.append(self.ev(s.value, env, mi) if s.value is not None else _OTHER)
+            return True
+        if isinstance(s, ast.Raise):
+            return True
+        if isinstance(s, (ast.Assert, ast.Pass, ast.Import, ast.ImportFrom, ast.Global, ast.Nonlocal)):
+            return False
+        if isinstance(s, ast.With):
+            for it in s.items:
+                self.ev(it.context_expr, env, mi)
+                if it.optional_vars is not None:
+                    self.bind(it.optional_vars, _OTHER, env)
+            return self.block(s.body, env, mi, rets)
+        if isinstance(s, (ast.FunctionDef, ast.ClassDef)):
+            env[s.name] = _unk(f"local definition {s.name}") if any(isinstance(x, ast.Name) and self.derived(env.get(x.id, _OTHER)) for x in ast.walk(s)) else _OTHER
+            return False
+        raise _Unread(f"statement `{short(s, 40)}` is not read")
+
+
+def _record_layout(repo):
+    """What `add_sample` appends per step, read on every path: ({role: position}, arity, {field name: position}, where)."""
+    layouts = []
+    for mi, fn, allp, _params, rec, nf in _add_sample_records(repo):
+        pos, names = {}, {}
+        if rec.elems:
+            items = [(None, el) for el in rec.elems]
+        else:
+            meta = nf.meta.get(rec.single_atom() or "", {}).get("record")
+            if not meta:
+                raise AnalysisError(f"{_DATASET}.add_sample: the per-step record `{rec.canon()[:60]}` is neither a tuple nor a plain record class (unrecognised form)")
+            items = list(meta.items())
+        for i, (fname, el) in enumerate(items):
+            a = el.single_atom()
+            if a in allp:
+                pos[i] = a
+            if fname is not None:
+                names[fname] = i
+        layouts.append((pos, len(items), names))
+    if not layouts or any(l != layouts[0] for l in layouts[1:]):
+        raise AnalysisError(f"{_DATASET}.add_sample: the paths append records of different layouts (unrecognised form)")
+    pos, arity, names = layouts[0]
+    roles = {}
+    for i, p in pos.items():
+        r = READ_ROLE.get(p)
+        if r is not None:
+            if r in roles:
+                raise AnalysisError(f"{_DATASET}.add_sample: the record holds role {r} twice (unrecognised form)")
+            roles[r] = i
+    return roles, arity, names, (mi, fn)
+
+
+def _readout_votes(repo, nf):
+    """Which protocol role the consumers give each position of the read-out result: a variable holding position p of the result that is
+    passed to a repository function whose signature distinguishes the observation from the successor observation (it has a parameter for
+    each) votes for the role of the parameter it is bound to.  {position: {role}}."""
+    votes = {}
+    done = set()
+    for q, fn, mi in repo.all_functions():
+        if id(fn) in done:
+            continue
+        done.add(id(fn))
+        calls = {id(c) for c in ast.walk(fn) if isinstance(c, ast.Call) and isinstance(c.func, ast.Attribute) and c.func.attr == _READOUT}
+        if not calls:
+            continue
+        from ..sem import result_position
+        cfg = nf.cfg_of(fn)
+        for n in cfg.nodes:
+            if n.kind != "stmt" or n.ast is None:
+                continue
+            for c in ast.walk(n.ast):
+                if not (isinstance(c, ast.Call) and isinstance(c.func, (ast.Name, ast.Attribute))):
+                    continue
+                try:
+                    cq_ = repo.resolve_expr(mi, c.func)
+                    callee = repo.func(cq_) if cq_ and repo.has(cq_) else None
+                except Exception:
+                    callee = None
+                if callee is None:
+                    continue
+                proles = {READ_ROLE.get(p) for p in positional_params(callee) + [a.arg for a in callee.args.kwonlyargs]}
+                if not {"O", "N"} <= proles:
+                    continue
+                for pname, a in bind_call(callee, c).items():
+                    r = READ_ROLE.get(pname)
+                    if r not in ("O", "A", "N") or not isinstance(a, ast.Name):
+                        continue
+                    rp = result_position(cfg, a.id, n.id)
+                    if rp is not None and id(rp[0]) in calls and isinstance(rp[1], int):
+                        votes.setdefault(rp[1], set()).add(r)
+    return votes
+
+
+def _readout(ck, repo):
+    """R5: every array the episode dataset hands to the learner for a protocol role (observation / action / successor observation) is
+    gathered from that role's own position of the per-step records, for every step of every episode in storage order.  An array of one
+    role that is (partly) the column of *another* role taken across all episodes - whole, shifted or sliced - differs from what the
+    environment returned (a shifted observation column is the successor only inside an episode: at an episode end it is the next
+    episode's reset observation); that is reported when a consumer's signature confirms the role.  Per-episode reconstructions and other
+    forms are not read (undecided)."""
+    from ..nf import NF
+    m = repo.method(_DATASET, _READOUT)
+    if m is None:
+        raise AnalysisError(f"{_DATASET}.{_READOUT} not found (anchor vanished)")
+    roles, arity, names, _where = _record_layout(repo)
+    nf = NF(repo, inline_calls=False)
+    votes = _readout_votes(repo, nf)
+    site = f"{_DATASET}.{_READOUT}"
+    owner, fn = m
+    mi = repo.cls(owner)._module
+    g = _Gather(repo, _DATASET, arity, names)
+    params = positional_params(fn)
+    if not params:
+        raise AnalysisError(f"{site}: no receiver parameter (unrecognised form)")
+    rets = []
+    try:
+        g.block(fn.body, {"%self": params[0]}, mi, rets)
+    except _Unread as ex:
+        raise AnalysisError(f"{site}: {ex} (unrecognised form)")
+    except (RecursionError, IndexError, KeyError, TypeError, ValueError, AttributeError) as ex:
+        raise AnalysisError(f"{site}: the read-out is written in a form the abstract evaluation does not read ({type(ex).__name__}: {ex}) (unrecognised form)")
+    ck.need(rets, f"{site}: no return value (unrecognised form)")
+    col_role = {k: r for r, k in roles.items()}
+    judged = []
+    for rv in rets:
+        if rv[0] == "tuple":
+            items = []
+            for p, v in enumerate(rv[1]):
+                vt = votes.get(p, set())
+                if len(vt) == 1:
+                    items.append((p, next(iter(vt)), True, v))
+                elif len(vt) > 1:
+                    ck.incomplete.append(f"{site}: position {p} of the result is consumed as {sorted(vt)} (unrecognised form)")
+                elif len(rv[1]) == 5 and p in _READOUT_LAYOUT:
+                    items.append((p, _READOUT_LAYOUT[p], False, v))
+        elif rv[0] == "record":
+            items = [(f, READ_ROLE[f], True, v) for f, v in rv[1].items() if READ_ROLE.get(f) in ("O", "A", "N")]
+        elif rv == _OTHER and len(rets) > 1:
+            continue        # a guard return (`return None` for an empty dataset) beside the gathering one
+        else:
+            ck.incomplete.append(f"{site}: the returned value is not a tuple / record of arrays ({rv[-1] if rv[0] == 'unk' else rv[0]}) (unrecognised form)")
+            continue
+        judged.append(items)
+    n = 0
+    for items in judged:
+        if len(judged) > 1 and items and all(v == _OTHER for _p, _r, _c, v in items):
+            continue        # a guard return (empty dataset) beside the gathering one
+        for p, r, confirmed, v in items:
+            k_r = roles.get(r)
+            key = f"{r}:gathered-from-own-record-position"
+            what = f"result[{p!r}] (role {r})"
+            if v[0] != "seq":
+                ck.incomplete.append(f"{site}: {what} is not read as a gather over the stored records ({v[-1] if v[0] == 'unk' else v[0]}) (unrecognised form)")
+                continue
+            desc = ", ".join(sorted(f"{'record' if k == '*' else 'other values' if k == 'x' else f'position {k}' + (f' [{col_role[k]}]' if k in col_role else '')}:{m_}" for k, m_, _g in v[1]))
+            if k_r is not None and v[1] == frozenset({(k_r, "A", None)}):
+                n += 1
+                ck.ob("R5-readout-role", site, key, True, f"{what} <- position {k_r} of every record of every episode, in order", "", loc(mi, fn))
+                continue
+            off = sorted((k, m_) for k, m_, _g in v[1] if isinstance(k, int) and k != k_r and k in col_role and m_ in ("A", "A~"))
+            if off and confirmed:
+                n += 1
+                k, m_ = off[0]
+                how = "the whole column" if m_ == "A" else "a shifted / sliced / extended part of the column"
+                ck.ob("R5-readout-role", site, key, False, f"{what} <- {desc}",
+                      f"the array handed out as role {r} is gathered from record position {k}, which holds role {col_role[k]} ({how}, taken across all episodes): "
+                      f"for the last step of an episode that is not the value env.step returned (a neighbouring record belongs to the next episode)"
+                      + ("" if k_r is not None else f"; the per-step record holds no position for role {r}"), loc(mi, fn))
+                continue
+            ck.incomplete.append(f"{site}: {what} is gathered as {{{desc}}}; whether that equals the stored {r} of every step is not read (unrecognised form)")
+    ck.count("readout-arrays", n)
 
 
 def _different_value(org, expr, at, wanted) -> bool | None:
@@ -492,10 +1404,64 @@ def _stale_action_nodes(cfg, L, act):
     return fresh, closure
 
 
+def _read_step_projection(repo, qual, cfgs):
+    """`r = env.step(a)` directly followed by `t0, .., tk = r[:k]` (or `t0, .., t4 = r`), `r` not read anywhere else, is the unpacking
+    `t0, .., tk, _.. = env.step(a)` written in two statements.  The loop is then analysed on a private copy of the function in which the two
+    statements are that single unpacking (positions are tuple positions of the step result either way); the parsed tree is not touched."""
+    from ..expand import clone
+    fn = repo.func(qual)
+    params = set(positional_params(fn)) | {a.arg for a in fn.args.kwonlyargs}
+
+    def is_step(v):
+        return isinstance(v, ast.Call) and isinstance(v.func, ast.Attribute) and v.func.attr == "step" and isinstance(v.func.value, ast.Name) and v.func.value.id in params
+    holders = [st for st in ast.walk(fn) if isinstance(st, ast.Assign) and len(st.targets) == 1 and isinstance(st.targets[0], ast.Name) and is_step(st.value)]
+    if len(holders) != 1:
+        return
+    r = holders[0].targets[0].id
+    uses = [x for x in ast.walk(fn) if isinstance(x, ast.Name) and x.id == r]
+    if len(uses) != 2 or r in params:
+        return          # one store (the holder), one load (the projection)
+    new = clone(fn)
+    done = False
+    for parent in ast.walk(new):
+        for fld in ("body", "orelse", "finalbody"):
+            block = getattr(parent, fld, None)
+            if not isinstance(block, list):
+                continue
+            for i in range(len(block) - 1):
+                a, b = block[i], block[i + 1]
+                if not (isinstance(a, ast.Assign) and len(a.targets) == 1 and isinstance(a.targets[0], ast.Name) and a.targets[0].id == r and is_step(a.value)):
+                    continue
+                if not (isinstance(b, ast.Assign) and len(b.targets) == 1 and isinstance(b.targets[0], (ast.Tuple, ast.List)) and all(isinstance(t, ast.Name) for t in b.targets[0].elts)):
+                    continue
+                k, v = len(b.targets[0].elts), b.value
+                whole = isinstance(v, ast.Name) and v.id == r and k == 5
+                sl = v.slice if isinstance(v, ast.Subscript) and isinstance(v.value, ast.Name) and v.value.id == r and isinstance(v.slice, ast.Slice) else None
+                part = sl is not None and (sl.lower is None or (isinstance(sl.lower, ast.Constant) and sl.lower.value in (0, None))) and sl.step is None \
+                    and isinstance(sl.upper, ast.Constant) and sl.upper.value == k and 1 <= k <= 5
+                if not (whole or part):
+                    continue
+                elts = list(b.targets[0].elts) + [ast.copy_location(ast.Name(id="_", ctx=ast.Store()), b) for _ in range(5 - k)]
+                tgt = ast.copy_location(ast.Tuple(elts=elts, ctx=ast.Store()), b.targets[0])
+                block[i:i + 2] = [ast.copy_location(ast.Assign(targets=[tgt], value=a.value), a)]
+                done = True
+                break
+    if not done:
+        return
+    new._module = fn._module
+    new._qual = getattr(fn, "_qual", qual)
+    new._parent = getattr(fn, "_parent", None)
+    for parent in ast.walk(new):
+        for child in ast.iter_child_nodes(parent):
+            child._parent = parent
+    cfgs[qual] = CFG(new)
+
+
 def run(ck, repo: Repo, tier: str):
     cfgs = {}
     loops = []
     for q in C01_LOOPS:
+        _read_step_projection(repo, q, cfgs)
         loops.append(find_env_loop(repo, q, cfgs))
     ck.floor("env-loops", len(loops), 19)
     n_sites = 0
@@ -768,6 +1734,7 @@ def run(ck, repo: Repo, tier: str):
     for L in loops:
         ck.guard(one_loop, L)
     ck.guard(_episode_record, ck, repo)
+    ck.guard(_readout, ck, repo)
     n_sites = n_sites_box[0]
     ck.count("store-sites", n_sites)
     ck.floor("store-sites", n_sites, 24)
@@ -874,6 +1841,14 @@ def _obs_uses_in_action(cfg, L, avar, ovar, nextvar, body, depth=4):
 
 # ---- self-validation variants (thorough tier) ------------------------------------------------------------
 _TD3 = "rl_blox/algorithm/td3.py"
+_RF = "rl_blox/algorithm/reinforce.py"
+_OBS = "        observations = []\n        for episode in self.episodes:\n            observations.extend([o for o, _, _, _ in episode])\n        return observations\n"
+_NXT = "        next_observations = []\n        for episode in self.episodes:\n            next_observations.extend([s for _, _, s, _ in episode])\n        return next_observations\n"
+_PREP_N = "        next_observations = jnp.array(self._nest_observations())\n"
+_DQN_STEP = "        next_obs, reward, terminated, truncated, info = env.step(int(action))\n"
+_DQN_STORE = "        replay_buffer.add_sample(\n            observation=obs,\n            action=action,\n            reward=reward,\n            next_observation=next_obs,\n            termination=terminated,\n        )\n"
+_RET = "        return observations, actions, next_observations, returns, gamma_discount\n"
+_ADD = "        dataset.add_sample(observation, action, next_observation, reward)\n"
 MUTANTS = [
     {"id": "c01-td3-device-copy-not-refreshed-at-reset", "file": _TD3, "rule": "R4", "edits": [('    obs, _ = env.reset(seed=seed)\n', '    obs, _ = env.reset(seed=seed)\n    obs_dev = jnp.asarray(obs)\n'), ('_sample_actions(policy, jnp.asarray(obs), action_key)', '_sample_actions(policy, obs_dev, action_key)'), ('        next_obs, reward, termination, truncated, info = env.step(action)\n', '        next_obs, reward, termination, truncated, info = env.step(action)\n        obs_dev = jnp.asarray(next_obs)\n')]},
     {"id": "c01-td3-carry-before-store", "file": _TD3, "rule": "R2",
@@ -907,6 +1882,22 @@ MUTANTS = [
     {"id": "c01-td3-first-observation-stored", "file": _TD3, "rule": "R2", "edits": [
         ("    obs, _ = env.reset(seed=seed)\n    steps_per_episode = 0\n", "    obs, _ = env.reset(seed=seed)\n    first_obs = obs\n    steps_per_episode = 0\n"), ("            observation=obs,\n            action=action,", "            observation=first_obs,\n            action=action,")]},
     {"id": "c01-ddpg-stale-sometimes", "file": "rl_blox/algorithm/ddpg.py", "rule": "R3", "find": "        else:\n            obs = next_obs\n\n    return namedtuple(\n        \"DDPGResult\"", "replace": "        elif steps_per_episode % 7 != 0:\n            obs = next_obs\n\n    return namedtuple(\n        \"DDPGResult\""},
+    # R5: read-out of the episode record
+    {"id": "c01-dataset-successor-is-observation-column", "file": _RF, "rule": "R5", "find": _PREP_N, "replace": "        next_observations = jnp.array(self._observations())\n"},
+    {"id": "c01-dataset-successor-shifted-flat-list", "file": _RF, "rule": "R5", "find": _NXT,
+     "replace": "        flat = [o for ep in self.episodes for o, _, _, _ in ep]\n        return flat[1:] + [self.episodes[-1][-1][2]]\n"},
+    {"id": "c01-dataset-observation-from-shifted-successors", "file": _RF, "rule": "R5", "find": _OBS,
+     "replace": "        succ = [s for ep in self.episodes for _, _, s, _ in ep]\n        return [self.episodes[0][0][0]] + succ[:-1]\n"},
+    {"id": "c01-dataset-unpack-position-swapped", "file": _RF, "rule": "R5", "find": "next_observations.extend([s for _, _, s, _ in episode])", "replace": "next_observations.extend([s for s, _, _, _ in episode])"},
+    {"id": "c01-dataset-zip-columns-swapped", "file": _RF, "rule": "R5", "find": _NXT, "replace": "        s, a, o, r = zip(*[rec for ep in self.episodes for rec in ep])\n        return list(s)\n"},
+    # the step result held in a variable and projected; the store's keywords given as a dict display
+    {"id": "c01-dqn-step-projection-swapped", "file": "rl_blox/algorithm/dqn.py", "rule": "R1", "find": _DQN_STEP, "replace": "        result = env.step(int(action))\n        reward, next_obs, terminated, truncated = result[:4]\n"},
+    {"id": "c01-dqn-splat-successor-is-observation", "file": "rl_blox/algorithm/dqn.py", "rule": "R1", "find": _DQN_STORE,
+     "replace": "        sample = {\"observation\": obs, \"action\": action, \"reward\": reward, \"next_observation\": obs, \"termination\": terminated}\n        replay_buffer.add_sample(**sample)\n"},
+    {"id": "c01-dataset-result-record-successor-field-holds-observations", "file": _RF, "rule": "R5", "edits": [
+        ("class EpisodeDataset:\n", "class PGBatch(NamedTuple):\n    observations: jnp.ndarray\n    actions: jnp.ndarray\n    next_observations: jnp.ndarray\n    returns: jnp.ndarray\n    gamma_discount: jnp.ndarray\n\n\nclass EpisodeDataset:\n"),
+        (_RET, "        return PGBatch(observations, actions, observations, returns, gamma_discount)\n")]},
+    {"id": "c01-reinforce-star-pack-swapped", "file": _RF, "rule": "R1", "find": _ADD, "replace": "        sample = (next_observation, action, observation, reward)\n        dataset.add_sample(*sample)\n"},
 ]
 BENIGN = [
     {"id": "c01-b-td3-device-copy-refreshed-at-reset", "file": _TD3, "edits": [('    obs, _ = env.reset(seed=seed)\n', '    obs, _ = env.reset(seed=seed)\n    obs_dev = jnp.asarray(obs)\n'), ('_sample_actions(policy, jnp.asarray(obs), action_key)', '_sample_actions(policy, obs_dev, action_key)'), ('        next_obs, reward, termination, truncated, info = env.step(action)\n', '        next_obs, reward, termination, truncated, info = env.step(action)\n        obs_dev = jnp.asarray(next_obs)\n'), ('            obs, _ = env.reset()\n', '            obs, _ = env.reset()\n            obs_dev = jnp.asarray(obs)\n')]},
@@ -938,4 +1929,32 @@ BENIGN = [
         ("        dataset.add_sample(observation, action, next_observation, reward)", "        dataset.add_sample(reward=reward, observation=observation, action=action, next_observation=next_observation)")]},
     {"id": "c01-b-reinforce-carry-in-else", "file": "rl_blox/algorithm/reinforce.py",
      "find": "        observation = next_observation\n\n        if done:", "replace": "        if not done:\n            observation = next_observation\n\n        if done:"},
+    # R5: other spellings of the same gather
+    {"id": "c01-b-dataset-nested-comprehension", "file": _RF, "find": _NXT, "replace": "        return [s for episode in self.episodes for _, _, s, _ in episode]\n"},
+    {"id": "c01-b-dataset-subscript-append", "file": _RF, "find": _NXT, "replace": "        out = []\n        for ep in self.episodes:\n            for step in ep:\n                out.append(step[2])\n        return out\n"},
+    {"id": "c01-b-dataset-range-len", "file": _RF, "find": _NXT,
+     "replace": "        out = []\n        for e in range(len(self.episodes)):\n            ep = self.episodes[e]\n            for t in range(len(ep)):\n                out.append(ep[t][2])\n        return out\n"},
+    {"id": "c01-b-dataset-accumulate-by-plus", "file": _RF, "find": _NXT, "replace": "        out = []\n        for ep in self.episodes:\n            out = out + [rec[-2] for rec in ep]\n        return out\n"},
+    {"id": "c01-b-dataset-per-episode-arrays-joined", "file": _RF, "find": _PREP_N,
+     "replace": "        next_observations = jnp.concatenate([jnp.array([s for _, _, s, _ in ep]) for ep in self.episodes], axis=0)\n"},
+    {"id": "c01-b-dataset-zip-columns", "file": _RF, "find": _NXT, "replace": "        out = []\n        for ep in self.episodes:\n            o, a, s, r = zip(*ep)\n            out.extend(s)\n        return out\n"},
+    {"id": "c01-b-dataset-steps-helper", "file": _RF, "find": _NXT, "replace": "        return [rec[2] for rec in self._all_steps()]\n\n    def _all_steps(self):\n        return [rec for ep in self.episodes for rec in ep]\n"},
+    {"id": "c01-b-dataset-namedtuple-record", "file": _RF, "edits": [
+        ("class EpisodeDataset:\n", "class Step(NamedTuple):\n    observation: jnp.ndarray\n    action: jnp.ndarray\n    next_observation: jnp.ndarray\n    reward: float\n\n\nclass EpisodeDataset:\n"),
+        ("        self.episodes[-1].append(\n            (observation, action, next_observation, reward)\n        )\n", "        self.episodes[-1].append(Step(observation, action, next_observation, reward))\n"),
+        (_NXT, "        return [st.next_observation for ep in self.episodes for st in ep]\n"),
+        (_OBS, "        return [st.observation for ep in self.episodes for st in ep]\n")]},
+    {"id": "c01-b-ac-whole-result-subscripts", "file": "rl_blox/algorithm/actor_critic.py",
+     "find": "        observations, actions, next_observations, returns, gamma_discount = (\n            dataset.prepare_policy_gradient_dataset(env.action_space, gamma)\n        )\n",
+     "replace": "        batch = dataset.prepare_policy_gradient_dataset(env.action_space, gamma)\n        observations, actions = batch[0], batch[1]\n        next_observations, returns, gamma_discount = batch[2], batch[3], batch[4]\n"},
+    {"id": "c01-b-dqn-step-projection", "file": "rl_blox/algorithm/dqn.py", "find": _DQN_STEP, "replace": "        result = env.step(int(action))\n        next_obs, reward, terminated, truncated = result[:4]\n"},
+    {"id": "c01-b-dqn-splat-dict", "file": "rl_blox/algorithm/dqn.py", "find": _DQN_STORE,
+     "replace": "        sample = {\"observation\": obs, \"action\": action, \"reward\": reward, \"next_observation\": next_obs, \"termination\": terminated}\n        replay_buffer.add_sample(**sample)\n"},
+    {"id": "c01-b-dataset-column-helper", "file": _RF, "find": _NXT, "replace": "        return self._column(2)\n\n    def _column(self, k):\n        return [rec[k] for ep in self.episodes for rec in ep]\n"},
+    {"id": "c01-b-dataset-empty-guard-return", "file": _RF, "find": "        observations = jnp.array(self._observations())\n",
+     "replace": "        if not self.episodes:\n            e = jnp.zeros((0,))\n            return e, e, e, e, e\n        observations = jnp.array(self._observations())\n"},
+    {"id": "c01-b-dataset-result-record", "file": _RF, "edits": [
+        ("class EpisodeDataset:\n", "class PGBatch(NamedTuple):\n    observations: jnp.ndarray\n    actions: jnp.ndarray\n    next_observations: jnp.ndarray\n    returns: jnp.ndarray\n    gamma_discount: jnp.ndarray\n\n\nclass EpisodeDataset:\n"),
+        (_RET, "        return PGBatch(observations, actions, next_observations, returns, gamma_discount)\n")]},
+    {"id": "c01-b-reinforce-star-pack", "file": _RF, "find": _ADD, "replace": "        sample = (observation, action, next_observation, reward)\n        dataset.add_sample(*sample)\n"},
 ]
